@@ -69,7 +69,11 @@ RULE = ("one wrapper kind per case (12 kinds incl. 4 pseudo-label table kinds), 
         "optionally wrapped around a KDRandomClassWrapper and (25%) stacked on 1-3 further label wrappers (swap, all-gather, "
         "semi, overwrite, pseudo label hard/soft/thresholded, random class, class groups, class-permuting superclass); group sizes (mostly divisors of C), splits 1..3, swap p in "
         "{0,1,grid}, world sizes 1..n, semi percent grid, smoothing a/b; non-trivial = at least one sample's label differs "
-        "from the wrapped label or an encoding vector is produced; distinct by (kind, params, n, C, labels hash)")
+        "from the wrapped label or an encoding vector is produced; distinct by (kind, params, n, C, labels hash); root dataset "
+        "storage list / ndarray / tensor handed out as is or copied (6 providers, array-backed over-represented); 30% of the "
+        "cases with C > 1 carry a construction history (1-3 siblings before, 0-2 after: same kind with another seed / other "
+        "kinds, beside / stacked / on top of the wrapper under test); directed: every seeded kind x every own-storage provider "
+        "with a same-kind-other-seed sibling")
 
 # wrappers that may SHOW the -1 marker (pass it through or create it)
 UNLABELED_OK = {"swap", "overwrite", "allgather", "pseudo", "semi", "smoothing"}
@@ -226,6 +230,69 @@ def gen_under(rng, n, C):
     return {"w": "class_groups", "cpg": rng.choice(divs), "shuffle": rng.random() < 0.5, "seed": gen_seed(rng)}
 
 
+SEEDED_KINDS = {"class_groups", "superclass", "swap", "random_class", "semi"}
+# wrappers that can sit on top of any label wrapper of this file whatever its class count (they take the class count
+# from the dataset they wrap and keep it)
+ON_TOP_KINDS = ["swap", "swap", "semi", "allgather", "random_class"]
+
+
+def other_seed(rng, seed):
+    while True:
+        s = gen_seed(rng)
+        if s != seed:
+            return s
+
+
+def gen_sibling(rng, case, allow_same=True):
+    """one more wrapper for the construction history: the wrapper of the case once more with ANOTHER seed (same class,
+    same arguments) or any label wrapper that keeps length and class count; -> (spec, keeps the class count)"""
+    k = case["w"]
+    if allow_same and rng.random() < 0.45 and (k in SEEDED_KINDS or (k == "pseudo" and case.get("mode") == "topk")):
+        spec = {kk: v for kk, v in case.items() if kk not in ("labels", "n", "C", "inner", "under", "hist", "post", "prov")}
+        spec["seed"] = other_seed(rng, case.get("seed"))
+        return spec, False
+    return gen_under(rng, case["n"], case["C"]), True
+
+
+def gen_history(rng, case):
+    """construction history on the objects of the case: `hist` = wrappers built (and mostly read) BEFORE the wrapper
+    under test, beside it on the same wrapped dataset object or stacked on an earlier sibling; `post` = wrappers built
+    AFTER it, beside it, on top of it or on top of a sibling (then the wrapper under test is read again).
+    on = -1: on the wrapped dataset, -2: on the wrapper under test, j >= 0: on sibling j"""
+    hist, post, keeps = [], [], []
+
+    def step(spec, on):
+        return {"spec": spec, "on": on, "read": rng.random() < 0.8}
+
+    for _ in range(rng.choice([1, 1, 1, 2, 2, 3])):
+        spec, keep = gen_sibling(rng, case)
+        bases = [j for j, kp in enumerate(keeps) if kp]
+        on = rng.choice(bases) if bases and rng.random() < 0.35 else -1
+        hist.append(step(spec, on))
+        keeps.append(keep)
+    if rng.random() < 0.4:
+        for _ in range(rng.choice([1, 1, 2])):
+            r = rng.random()
+            # (not on a re-encoding wrapper -- its per-sample labels are vectors -- and not on sampled pseudo labels,
+            # whose bulk accessor raises NotImplementedError by design)
+            if r < 0.4 and case["w"] not in ("smoothing", "onehot") and case.get("mode") != "topk":
+                n = case["n"]
+                kind = rng.choice(ON_TOP_KINDS)
+                spec = {"swap": {"w": "swap", "p": rng.choice([0.25, 0.5, 1.0]), "seed": gen_seed(rng)},
+                        "semi": {"w": "semi", "pct": rng.choice([0.3, 0.5, 1.0]), "seed": gen_seed(rng)},
+                        "allgather": {"w": "allgather", "W": rng.randint(1, n)},
+                        "random_class": {"w": "random_class", "mode": "random", "num_classes": None,
+                                         "seed": gen_seed(rng)}}[kind]
+                post.append(step(spec, -2))
+                keeps.append(False)
+            else:
+                spec, keep = gen_sibling(rng, case)
+                bases = [j for j, kp in enumerate(keeps) if kp]
+                post.append(step(spec, rng.choice(bases) if bases and r > 0.8 else -1))
+                keeps.append(keep)
+    return hist, post
+
+
 BINARY_KINDS = {"swap", "overwrite", "allgather", "pseudo", "semi", "random_class"}
 
 
@@ -234,7 +301,7 @@ def to_binary(case, rng):
     not read the class count as a table size are defined there (class groups / superclass / one-hot index or encode with it
     and reject label 1); label smoothing has its own binary cases"""
     n = case["n"]
-    c = {k: v for k, v in case.items() if k not in ("under", "topk", "tau", "threshold", "table", "as2d", "ties")}
+    c = {k: v for k, v in case.items() if k not in ("under", "topk", "tau", "threshold", "table", "as2d", "ties", "hist", "post")}
     c.update(C=1, inner=None, binary=True, labels=[rng.choice([0, 1, 1, -1]) for _ in range(n)])
     if c["w"] == "overwrite":
         c["classes"] = [rng.choice([0, 1, -1]) for _ in range(n)]
@@ -332,6 +399,10 @@ def _gen_case(rng, big=False, kind=None):
     if case["C"] > 1 and rng.random() < 0.25:
         # wrappers stacked on each other (semi over pseudo label over class groups ...): the wrapper of the case sits on top
         case["under"] = [gen_under(rng, n, case["C"]) for _ in range(rng.choice([1, 1, 2, 3]))]
+    # what the root dataset's bulk accessors hand out: its own storage (list / ndarray / tensor) or a copy
+    case["prov"] = rng.choice(PROVIDERS + ["own_np", "own_torch"])
+    if case["C"] > 1 and rng.random() < 0.3:
+        case["hist"], case["post"] = gen_history(rng, case)
     return case
 
 
@@ -372,18 +443,45 @@ def directed_cases(rng):
     return out
 
 
+def directed_histories(rng):
+    """for every seeded wrapper kind and every provider that hands out the dataset's own storage: the wrapper built
+    after the SAME kind of wrapper with another seed, beside it and stacked; and after / before one of every other
+    kind"""
+    out = []
+    for kind in sorted(SEEDED_KINDS) + ["pseudo", "overwrite", "allgather", "smoothing", "onehot"]:
+        for prov in ("own_list", "own_np", "own_torch"):
+            for _ in range(40):
+                case = _gen_case(rng, kind=kind)
+                if case["C"] > 1 and not (kind == "class_groups" and case["C"] % case["cpg"]):
+                    break
+            else:
+                continue
+            case["prov"] = prov
+            case.pop("under", None)
+            a, _ = gen_sibling(rng, case)
+            b = gen_under(rng, case["n"], case["C"])
+            hist = [{"spec": a, "on": -1, "read": True}]
+            if rng.random() < 0.5:
+                hist.append({"spec": b, "on": -1, "read": True})
+                hist.append({"spec": gen_sibling(rng, case)[0], "on": 1, "read": rng.random() < 0.5})
+            case["hist"] = hist
+            case["post"] = [{"spec": gen_sibling(rng, case)[0], "on": -1, "read": True}] if rng.random() < 0.5 else []
+            out.append(case)
+    return out
+
+
 def gen_cases(rng, tier):
     if tier == "quick":
-        out = directed_cases(rng)
+        out = directed_cases(rng) + directed_histories(rng)
         out += [gen_case(rng, kind=k) for k in KINDS for _ in range(12)]
         out += [gen_case(rng) for _ in range(900)]
     else:
-        out = directed_cases(rng) + [gen_case(rng) for _ in range(10000)] + [gen_case(rng, big=True) for _ in range(4000)]
+        out = directed_cases(rng) + [c for _ in range(6) for c in directed_histories(rng)] + [gen_case(rng) for _ in range(10000)] + [gen_case(rng, big=True) for _ in range(4000)]
     return out
 
 
 def search_cases(rng, tier):
-    for c in directed_cases(rng):
+    for c in directed_cases(rng) + directed_histories(rng):
         yield c
     for _ in range(30000):
         yield gen_case(rng, big=rng.random() < 0.3)
@@ -392,7 +490,7 @@ def search_cases(rng, tier):
 def _drop(case, i):
     """the case without sample i (None if that leaves the domain)"""
     n = case["n"]
-    if n <= 1 or case.get("under"):
+    if n <= 1 or case.get("under") or case.get("hist") or case.get("post"):
         return None
     c = dict(case)
     c["n"] = n - 1
@@ -408,6 +506,24 @@ def _drop(case, i):
 
 
 def shrink(case):
+    if case.get("post"):
+        yield {**case, "post": []}
+    if case.get("hist"):
+        yield {k: v for k, v in case.items() if k not in ("hist", "post")}
+        if not case.get("post"):
+            for i in range(len(case["hist"])):
+                # drop step i unless a later step is stacked on it; renumber the steps stacked on later ones
+                if len(case["hist"]) > 1 and not any(st["on"] == i for st in case["hist"]):
+                    rest = [dict(st, on=st["on"] - 1 if st["on"] > i else st["on"])
+                            for j, st in enumerate(case["hist"]) if j != i]
+                    yield {**case, "hist": rest}
+            for i, st in enumerate(case["hist"]):
+                if st["on"] >= 0:
+                    yield {**case, "hist": [dict(x, on=-1) if j == i else x for j, x in enumerate(case["hist"])]}
+    if case.get("prov", "own_list") not in ("own_list", "own_np"):
+        yield {**case, "prov": "own_np"}
+    if case.get("prov", "own_list") != "own_list":
+        yield {**case, "prov": "own_list"}
     if case.get("inner") is not None:
         yield {**case, "inner": None}
     if case.get("under"):
@@ -562,45 +678,89 @@ class _Patched:
 # running the implementation
 # ---------------------------------------------------------------------------
 _BASE = {}
+# label providers: what the root dataset's getall_class hands out.  "own_*": the dataset keeps its labels (and its x
+# data) in a list / ndarray / tensor and the bulk accessor returns THAT OBJECT (as datasets holding a `targets` array
+# do) -- a constructor / accessor that writes into what it got changes the dataset; "list" / "np" / "torch": a fresh
+# copy per call.  getitem_class always reads from the storage.
+PROVIDERS = ["own_list", "list", "np", "torch", "own_np", "own_torch"]
+OWN_STORAGE = {"own_list": "list", "own_np": "ndarray", "own_torch": "tensor"}
 
 
-def base_cls():
-    if "c" not in _BASE:
+def base_cls(prov="own_list"):
+    if not _BASE:
+        import numpy as np
+        import torch
         from kappadata.datasets.kd_dataset import KDDataset
 
         class Base(KDDataset):
-            """plain dataset; getall_class returns the stored list itself (like `return self.targets`)"""
+            """plain dataset; labels in self.store, x data in self.xs; the bulk accessors return the storage itself
+            (like `return self.targets`) or a copy, depending on the provider"""
+            own = True
 
             def __init__(self, classes, n_classes):
                 super().__init__()
-                self.classes = list(classes)
+                self.store = self.make_store([int(c) for c in classes])
+                self.xs = self.make_store([7 * i + 1 for i in range(len(classes))])
                 self.n_classes = n_classes
 
+            @staticmethod
+            def make_store(values):
+                return list(values)
+
+            def state(self):
+                """content of everything the dataset owns, read from the storage (not through the accessors)"""
+                return {"labels": [int(v) for v in self.store], "x": [int(v) for v in self.xs]}
+
+            def hand_out(self, store):
+                return store if self.own else self.make_store([int(v) for v in store])
+
             def __len__(self):
-                return len(self.classes)
+                return len(self.store)
 
             def getitem_class(self, idx, ctx=None):
-                return self.classes[idx]
+                return int(self.store[idx])
 
             def getall_class(self):
-                return self.classes
+                return self.hand_out(self.store)
 
             def getshape_class(self):
                 return (self.n_classes,)
 
             def getitem_x(self, idx, ctx=None):
-                return 7 * int(idx) + 1
+                return int(self.xs[idx])
 
             def getall_x(self):
-                return [7 * i + 1 for i in range(len(self))]
+                return self.hand_out(self.xs)
 
-        _BASE["c"] = Base
-    return _BASE["c"]
+        class BaseNp(Base):
+            @staticmethod
+            def make_store(values):
+                return np.array(list(values), dtype=np.int64)
+
+        class BaseTorch(Base):
+            @staticmethod
+            def make_store(values):
+                return torch.tensor(list(values), dtype=torch.long)
+
+        _BASE.update({
+            "own_list": Base, "own_np": BaseNp, "own_torch": BaseTorch,
+            "list": type("BaseCopy", (Base,), {"own": False}),
+            "np": type("BaseNpCopy", (BaseNp,), {"own": False}),
+            "torch": type("BaseTorchCopy", (BaseTorch,), {"own": False}),
+        })
+    return _BASE[prov]
 
 
-def build(case, wrapped):
+def build(case, wrapped, args=None):
+    """construct the wrapper described by `case` on `wrapped`; args (a list) receives every mutable constructor
+    argument as (what, live object, content at construction time)"""
     import torch
     k = case["w"]
+
+    def arg(what, obj):
+        if args is not None:
+            args.append((what, obj, _tolist(obj.clone() if torch.is_tensor(obj) else list(obj))))
+        return obj
     if k == "class_groups":
         from kappadata.wrappers.dataset_wrappers.class_groups_wrapper import ClassGroupsWrapper
         return ClassGroupsWrapper(wrapped, classes_per_group=case["cpg"], shuffle=case["shuffle"], seed=case["seed"])
@@ -613,7 +773,8 @@ def build(case, wrapped):
         return SwapLabelWrapper(wrapped, p=case["p"], seed=case["seed"])
     if k == "overwrite":
         from kappadata.wrappers.dataset_wrappers.overwrite_classes_wrapper import OverwriteClassesWrapper
-        cl = torch.tensor(case["classes"]) if case["as_tensor"] else list(case["classes"])
+        cl = arg("OverwriteClassesWrapper(classes=...)",
+                 torch.tensor(case["classes"]) if case["as_tensor"] else list(case["classes"]))
         return OverwriteClassesWrapper(wrapped, classes=cl)
     if k == "allgather":
         from kappadata.wrappers.dataset_wrappers.allgather_class_wrapper import AllgatherClassWrapper
@@ -624,8 +785,9 @@ def build(case, wrapped):
             t = torch.tensor(case["table"])
             if case["as2d"]:
                 t = t.unsqueeze(1)
+            arg("KDPseudoLabelWrapper(pseudo_labels=...)", t)
             return KDPseudoLabelWrapper(wrapped, pseudo_labels=t, seed=case["seed"])
-        t = torch.tensor(case["table"], dtype=torch.float32)
+        t = arg("KDPseudoLabelWrapper(pseudo_labels=...)", torch.tensor(case["table"], dtype=torch.float32))
         tau = float("inf") if case["tau"] == "inf" else case["tau"]
         return KDPseudoLabelWrapper(wrapped, pseudo_labels=t, threshold=case.get("threshold"), topk=case.get("topk"),
                                     tau=tau, seed=case["seed"])
@@ -647,13 +809,13 @@ def build(case, wrapped):
     raise ValueError(k)
 
 
-def make_wrapped(case):
-    base = base_cls()(case["labels"], case["C"])
+def make_wrapped(case, args=None):
+    base = base_cls(case.get("prov", "own_list"))(case["labels"], case["C"])
     if case.get("inner") is not None:
         from kappadata.wrappers.sample_wrappers.kd_random_class_wrapper import KDRandomClassWrapper
         base = KDRandomClassWrapper(base, seed=case["inner"])
     for spec in case.get("under", []):
-        base = build(spec, base)
+        base = build(spec, base, args)
     return base
 
 
@@ -723,28 +885,120 @@ def _labels_of(ds):
     return a if a == b else ["INCONSISTENT", a, b]
 
 
-def run_once(case):
+def _layers(ds):
+    """the wrapped dataset from the top wrapper down to the root dataset"""
+    out = [ds]
+    while "dataset" in vars(out[-1]):
+        out.append(vars(out[-1])["dataset"])
+    return out
+
+
+class _Watch:
+    """'constructors and accessors are pure': the content of everything below the wrapper under test -- the labels of
+    EVERY layer of the wrapped stack (per-sample and bulk), the root dataset's own storage (labels and x data, read
+    directly) and the mutable constructor arguments -- is compared with a snapshot taken before anything was built."""
+
+    def __init__(self, wrapped, args):
+        self.layers = _layers(wrapped)
+        self.args = args
+        self.snap = self.now()
+        self.first = None           # first change seen: {"after": ..., "what": ..., "before": ..., "now": ...}
+        self.tops = []              # labels of the top layer after every step (for the Coq check)
+
+    def now(self):
+        st = {}
+        for d, layer in enumerate(self.layers):
+            st[f"labels of layer {d} ({type(layer).__name__})"] = _labels_of(layer)
+        root = self.layers[-1]
+        if hasattr(root, "state"):
+            for k, v in root.state().items():
+                st[f"root dataset's stored {k}"] = v
+        return st
+
+    def verify(self, where, record=False):
+        now = self.now()
+        if self.first is None:
+            for k in now:
+                if now[k] != self.snap[k]:
+                    self.first = {"after": where, "what": k, "before": self.snap[k], "now": now[k]}
+                    break
+        if self.first is None:
+            for what, live, frozen in self.args:
+                if _tolist(live) != frozen:
+                    self.first = {"after": where, "what": "constructor argument " + what, "before": frozen,
+                                  "now": _tolist(live)}
+                    break
+        if record:
+            self.tops.append(now["labels of layer 0 (%s)" % type(self.layers[0]).__name__])
+
+
+def _exercise(ds):
+    """call both label accessors of a sibling wrapper on every sample (results are not judged here)"""
+    for i in range(len(ds)):
+        ds.getitem_class(i)
+    try:
+        ds.getall_class()
+    except NotImplementedError:
+        pass
+
+
+def _history(steps, offset, sibs, wrapped, w, watch, obs, args):
+    """run construction steps on the SAME objects: each builds one more wrapper beside the wrapper under test (on the
+    wrapped dataset), on top of an earlier sibling, or on top of the wrapper under test, and (mostly) reads it"""
+    for j, st in enumerate(steps):
+        on = st["on"]
+        base = wrapped if on == -1 else w if on == -2 else sibs[on]
+        name = f"history step {offset + j} ({st['spec']['w']}" + (
+            " beside" if on == -1 else " on top of the wrapper under test" if on == -2 else f" on top of sibling {on}") + ")"
+        try:
+            sib = build(st["spec"], base, args)
+        except Exception as e:  # noqa
+            obs.setdefault("hist_error", f"constructing {name}: {type(e).__name__}: {str(e)[:120]}")
+            sibs.append(base)
+            watch.verify("constructing " + name, record=True)
+            continue
+        sibs.append(sib)
+        watch.verify("constructing " + name, record=True)
+        if st.get("read", True):
+            try:
+                _exercise(sib)
+            except Exception as e:  # noqa
+                obs.setdefault("hist_error", f"reading {name}: {type(e).__name__}: {str(e)[:120]}")
+            watch.verify("reading " + name, record=True)
+
+
+def run_once(case, history=True):
     trace = []
     obs = {}
     with _Patched(trace):
-        wrapped = make_wrapped(case)
+        args = []
+        wrapped = make_wrapped(case, args)
+        watch = _Watch(wrapped, args)
         before = _labels_of(wrapped)
         obs["wrapped"] = before
+        obs["changed_by"] = None
+        sibs = []
+        pre = case.get("hist", []) if history else []
+        post = case.get("post", []) if history else []
+        _history(pre, 0, sibs, wrapped, None, watch, obs, args)
         del trace[:]
         try:
-            w = build(case, wrapped)
+            w = build(case, wrapped, args)
         except Exception as e:  # classified by the oracle
             obs["ctor_error"] = type(e).__name__ + ": " + str(e)[:120]
+            if watch.first is not None:
+                obs["changed_by"], obs["change"] = watch.first["after"], watch.first
             return obs
         obs["ctor_draws"] = list(trace)
-        obs["changed_by"] = None
         obs["shadowed"] = shadowed_accessors(w, wrapped)
 
-        def guard(name):
-            if obs["changed_by"] is None and _labels_of(wrapped) != before:
-                obs["changed_by"] = name
+        def guard(name, record=False):
+            watch.verify(name, record)
+            if obs["changed_by"] is None and watch.first is not None:
+                obs["changed_by"] = watch.first["after"]
+                obs["change"] = watch.first
 
-        guard("constructor")
+        guard("the constructor", True)
         n = len(w)
         obs["len"] = n
         try:
@@ -760,7 +1014,7 @@ def run_once(case):
             except Exception as e:
                 obs[key] = "error " + type(e).__name__ + ": " + str(e)[:120]
             obs[key + "_draws"] = list(trace)
-            guard("getitem_class")
+            guard("getitem_class", True)
             if key == "items":
                 try:
                     obs["bulk"] = [_plain(y) for y in _tolist(w.getall_class())]
@@ -768,19 +1022,38 @@ def run_once(case):
                     obs["bulk"] = "NotImplementedError"
                 except Exception as e:
                     obs["bulk"] = "error " + type(e).__name__ + ": " + str(e)[:120]
-                guard("getall_class")
+                guard("getall_class", True)
         try:
             obs["bulk2"] = [_plain(y) for y in _tolist(w.getall_class())]
         except Exception as e:
             obs["bulk2"] = type(e).__name__
         guard("getall_class")
-        obs["after"] = _labels_of(wrapped)
         # data other than the label
         try:
-            obs["x_ok"] = ([w.getitem_x(i) for i in range(n)] == [7 * i + 1 for i in range(n)]
-                           and list(w.getall_x()) == [7 * i + 1 for i in range(n)])
+            want = [7 * i + 1 for i in range(n)]
+            obs["x_ok"] = ([int(w.getitem_x(i)) for i in range(n)] == want
+                           and [int(v) for v in _tolist(w.getall_x())] == want)
         except Exception as e:
             obs["x_ok"] = "error " + type(e).__name__
+        guard("getitem_x / getall_x")
+        if post:
+            # later constructions on the same objects, then the wrapper under test is read again
+            _history(post, len(pre), sibs, wrapped, w, watch, obs, args)
+            try:
+                obs["items3"] = [_plain(w.getitem_class(i)) for i in range(n)]
+            except Exception as e:
+                obs["items3"] = "error " + type(e).__name__ + ": " + str(e)[:120]
+            try:
+                obs["bulk3"] = [_plain(y) for y in _tolist(w.getall_class())]
+            except NotImplementedError:
+                obs["bulk3"] = "NotImplementedError"
+            except Exception as e:
+                obs["bulk3"] = "error " + type(e).__name__ + ": " + str(e)[:120]
+            guard("re-reading the wrapper after the later constructions", True)
+        if obs["changed_by"] is None and watch.first is not None:
+            obs["changed_by"], obs["change"] = watch.first["after"], watch.first
+        obs["after"] = _labels_of(wrapped)
+        obs["tops"] = watch.tops
     return obs
 
 
@@ -818,7 +1091,8 @@ def run_impl(case):
     obs["global_rng_touched"] = _globals_digest() != before
     if "ctor_error" not in obs:
         _seed_globals(1234 if dynamic(case) else 98765)
-        again = run_once(case)
+        # the reference: the same wrapper on a pristine copy of the dataset, WITHOUT the construction history
+        again = run_once(case, history=False)
         obs["rebuild_items"] = again.get("items")
         obs["rebuild_bulk"] = again.get("bulk")
     return obs
@@ -863,9 +1137,24 @@ def oracle(case, obs):
         return "getitem_class raised: " + items
     if isinstance(bulk, str) and bulk != "NotImplementedError":
         return "getall_class raised: " + bulk
+    if obs.get("hist_error"):
+        return "a construction of the history raised on an in-domain configuration: " + obs["hist_error"]
     if obs["changed_by"] is not None or obs["after"] != wrapped:
-        return (f"the WRAPPED dataset's labels changed after {obs['changed_by']}: before {wrapped} "
-                f"after {obs['after']}")
+        ch = obs.get("change") or {"what": "labels of the wrapped dataset", "before": wrapped, "now": obs["after"]}
+        own = OWN_STORAGE.get(case.get("prov", "own_list"))
+        return (f"constructors and accessors must be pure, but the WRAPPED dataset changed after {obs['changed_by']}: "
+                f"{ch['what']} before {ch['before']} now {ch['now']}"
+                + (f" (the root dataset's bulk accessors hand out its own {own})" if own else ""))
+    hist_desc = ""
+    if case.get("hist") or case.get("post"):
+        hist_desc = (" [construction history on the same objects: before "
+                     + str([(st["spec"]["w"], st["spec"].get("seed"), st["on"]) for st in case.get("hist", [])])
+                     + " after " + str([(st["spec"]["w"], st["spec"].get("seed"), st["on"]) for st in case.get("post", [])])
+                     + f"; provider {case.get('prov', 'own_list')}]")
+    if "items3" in obs and not dynamic(case):
+        if obs["items3"] != items or obs["bulk3"] != bulk:
+            return ("the wrapper's labels changed after LATER constructions on the same objects: per-sample "
+                    f"{items} -> {obs['items3']}, bulk {bulk} -> {obs['bulk3']}" + hist_desc)
     if obs["x_ok"] is not True:
         return f"data other than the label is not passed through unchanged: {obs['x_ok']}"
     if obs.get("shadowed"):
@@ -909,7 +1198,7 @@ def oracle(case, obs):
             if (k == "onehot" or sm < 1) and any(v[j] >= v[y] for j in range(len(v)) if j != y):
                 return f"sample {i}: class {y} is not the strict argmax of {[float(q) for q in v]}"
         if obs["items2"] != items or obs["rebuild_items"] != items:
-            return "second pass / second construction gives another encoding"
+            return "second pass / construction on a pristine copy gives another encoding" + hist_desc
         if obs.get("global_rng_touched"):
             return "a re-encoding wrapper read / advanced a process-wide random generator"
         return None
@@ -939,7 +1228,8 @@ def oracle(case, obs):
         if obs["items2"] != items:
             return f"second pass over getitem_class differs: {obs['items2']} vs {items}"
         if obs["rebuild_items"] != items or obs["rebuild_bulk"] != bulk:
-            return f"a second wrapper built from the same arguments gives other labels: {obs['rebuild_items']} vs {items}"
+            return ("the mapping is not a function of the constructor arguments and seed: the same wrapper built from the "
+                    f"same arguments on a pristine copy of the dataset gives {obs['rebuild_items']}, here {items}" + hist_desc)
     # wrapper-specific direct statements
     if k == "class_groups" and in_domain(case, wrapped):
         cpg = case["cpg"]
@@ -1044,10 +1334,15 @@ def coq_applicable(case, obs):
         return False
     if obs["after"] and obs["after"][0] == "INCONSISTENT":
         return False
+    if any(t and t[0] == "INCONSISTENT" for t in obs.get("tops", [])):
+        return False
+    if "items3" in obs and (isinstance(obs["items3"], str) or (isinstance(obs["bulk3"], str) and obs["bulk3"] != "NotImplementedError")):
+        return False
     flat = obs["items"] + obs["items2"] + (obs["bulk"] if isinstance(obs["bulk"], list) else [])
+    flat = flat + obs.get("items3", []) + (obs["bulk3"] if isinstance(obs.get("bulk3"), list) else [])
     if case["w"] in ("smoothing", "onehot"):
         return all(isinstance(y, int) for y in obs["bulk"]) and all(
-            isinstance(it, int) or it[0] in ("vec", "scalar") for it in obs["items"])
+            isinstance(it, int) or it[0] in ("vec", "scalar") for it in obs["items"] + obs.get("items3", []))
     return all(isinstance(y, int) for y in flat)
 
 
@@ -1130,15 +1425,23 @@ def coq_enc(it):
 
 def coq_case(case, obs):
     k = case["w"]
+    hist = [list(t) for t in obs.get("tops", [])]
     if k in ("smoothing", "onehot"):
         e = K("ESmooth", Q(case["sm"])) if k == "smoothing" else K("EOneHot")
         items = [coq_enc(it) for it in obs["items"]]
+        later = None
+        if "items3" in obs:
+            later = [coq_enc(it) for it in obs["items3"]] or Raw("(@nil enc)")
         return coq(K("CaseEnc", e, case["C"], list(obs["wrapped"]),
-                     items if items else Raw("(@nil enc)"), list(obs["bulk"]), list(obs["after"])))
+                     items if items else Raw("(@nil enc)"), list(obs["bulk"]), list(obs["after"]),
+                     hist if hist else Raw("(@nil (list Z))"), Opt(later)))
     bulk = None if obs["bulk"] == "NotImplementedError" else list(obs["bulk"])
     items2 = obs["items"] if dynamic(case) else obs["items2"]
+    later = None
+    if "items3" in obs and not dynamic(case):
+        later = (list(obs["items3"]), Opt(None if obs["bulk3"] == "NotImplementedError" else list(obs["bulk3"])))
     o = Rec(o_items=list(obs["items"]), o_items2=list(items2), o_bulk=Opt(bulk), o_shape=obs["shape"][0],
-            o_after=list(obs["after"]))
+            o_after=list(obs["after"]), o_hist=hist if hist else Raw("(@nil (list Z))"), o_later=Opt(later))
     return coq(K("CaseLabel", coq_wspec(case, obs), case["C"], list(obs["wrapped"]), o))
 
 
@@ -1152,6 +1455,14 @@ def features(case, obs):
     yield "stacked on %d other label wrappers" % len(case.get("under", []))
     for u in case.get("under", []):
         yield "under=" + u["w"] + ("/" + u["mode"] if "mode" in u else "")
+    yield "provider=" + case.get("prov", "own_list")
+    yield "history: %d before, %d after" % (len(case.get("hist", [])), len(case.get("post", [])))
+    for st in case.get("hist", []) + case.get("post", []):
+        same = st["spec"]["w"] == k
+        yield "history step: %s%s, %s" % (
+            "same kind" if same else "other kind",
+            " with another seed" if same and st["spec"].get("seed") != case.get("seed") else "",
+            "beside" if st["on"] == -1 else "on top of the wrapper under test" if st["on"] == -2 else "stacked on a sibling")
     if "seed" in case:
         yield "seed=" + ("None" if case["seed"] is None else "0" if case["seed"] == 0 else "1" if case["seed"] == 1 else "other")
     yield "has-unlabeled=%s" % (-1 in (obs.get("wrapped") or []))
